@@ -59,12 +59,7 @@ func c20ByLanguage(p *Program, r *Report) bool {
 	s := NewSummarizer(p, regs)
 	oe := newOutEval(p, s)
 	oe.Markers = true
-	fr := &oframe{fn: fn, env: termEnv{}, bind: map[ssa.Value]*lx{}}
-	for i, prm := range fn.Params {
-		if isStringish(prm.Type()) {
-			fr.env[prm] = Term{Param: i}
-		}
-	}
+	fr := oe.topFrame(fn)
 	var alts []*lx
 	for _, ret := range Returns(fn) {
 		if len(ret.Results) == 2 && certainlyNonNil(ret.Results[1], ret.Block()) {
